@@ -589,6 +589,17 @@ func checkC16(r *Report) {
 				if named[c.Name()] {
 					r.ok("C16/EVAL-EXHAUSTIVE", key, p.pos(sw.Pos()), "named by a case")
 				} else if why, ok := reviewed[c.Name()]; ok {
+					if c.Name() == "markerOpTildeEqual" {
+						// re-check the reviewed reason: a failed constraint build must be an error of parseMarkerExpr
+						ps := loadResolve("", true)
+						if pf := ps.lookupFn("(*resolve/pypi.envParser).parseMarkerExpr"); pf == nil {
+							r.bad("C16/EVAL-EXHAUSTIVE", key, p.pos(sw.Pos()), "parseMarkerExpr not found: the reviewed reason cannot be re-checked")
+							continue
+						} else if found, prop, pos := errPropagated(pf, "semver.System).ParseConstraint"); !found || !prop {
+							r.bad("C16/EVAL-EXHAUSTIVE", key, ps.pos(pos), "the evaluator has no case for ~= because a version constraint is always built for it; but parseMarkerExpr no longer returns the error of ParseConstraint, so an expression with ~= and no constraint can reach the evaluator's panic")
+							continue
+						}
+					}
 					r.ok("C16/EVAL-EXHAUSTIVE", key, p.pos(sw.Pos()), "reviewed exception: "+why)
 				} else {
 					r.bad("C16/EVAL-EXHAUSTIVE", key, p.pos(sw.Pos()), "the evaluator's switch has no case for this operator: evaluating such a marker panics")
@@ -697,7 +708,7 @@ func checkC19(r *Report) {
 				r.bad("C19.c/WRITERS", key, p.pos(s.pos), "the attribute map is written outside SetAttr and Clone: the key bitmask (and with it Compare/ForEachAttr) can fall out of step")
 			}
 		}
-		r.floor("C19.c/WRITERS", "write sites on attr.Set.attrs", n, 3)
+		r.floor("C19.c/WRITERS", "write sites on attr.Set.attrs", n, 2)
 		if f := p.lookupFn("(*resolve/internal/attr.Set).SetAttr"); f != nil {
 			okAll := false
 			for _, b := range f.Blocks {
@@ -883,6 +894,7 @@ func cloneCompleteRule(r *Report, p *Prog, rule string, f *ssa.Function) {
 		return
 	}
 	stored := map[int]ssa.Value{}
+	allStored := map[int][]ssa.Value{}
 	for _, ref := range *alloc.Referrers() {
 		fa, ok := ref.(*ssa.FieldAddr)
 		if !ok {
@@ -890,7 +902,10 @@ func cloneCompleteRule(r *Report, p *Prog, rule string, f *ssa.Function) {
 		}
 		for _, r2 := range *fa.Referrers() {
 			if sto, ok := r2.(*ssa.Store); ok && sto.Addr == ssa.Value(fa) {
-				stored[fa.Field] = sto.Val
+				if _, seen := stored[fa.Field]; !seen {
+					stored[fa.Field] = sto.Val
+				}
+				allStored[fa.Field] = append(allStored[fa.Field], sto.Val)
 			}
 		}
 	}
@@ -904,15 +919,18 @@ func cloneCompleteRule(r *Report, p *Prog, rule string, f *ssa.Function) {
 			continue
 		}
 		switch e.kind(fld.Type()) {
-		case 2: // reference: must be fresh
-			switch v.(type) {
-			case *ssa.MakeMap, *ssa.MakeSlice, *ssa.Alloc:
-			default:
-				if call, ok := v.(*ssa.Call); ok && strings.HasSuffix(staticCalleeName(call), ".Clone") {
-					break
+		case 2: // reference: every value stored must be fresh
+			for _, sv := range allStored[i] {
+				switch sv.(type) {
+				case *ssa.MakeMap, *ssa.MakeSlice, *ssa.Alloc:
+				default:
+					if call, ok := sv.(*ssa.Call); ok && strings.HasSuffix(staticCalleeName(call), ".Clone") {
+						break
+					}
+					probs = append(probs, "reference field "+fld.Name()+" is copied, not re-made: the clone shares it with the original")
 				}
-				probs = append(probs, "reference field "+fld.Name()+" is copied, not re-made: the clone shares it with the original")
 			}
+			_ = v
 		case 1: // struct with references: must come from a nested Clone
 			if call, ok := v.(*ssa.Call); !ok || !strings.HasSuffix(staticCalleeName(call), ".Clone") {
 				probs = append(probs, "field "+fld.Name()+" contains references and is not produced by a nested Clone")
@@ -931,6 +949,13 @@ func cloneCompleteRule(r *Report, p *Prog, rule string, f *ssa.Function) {
 					if fv := nearestField(mu.Map); fv == st.Field(i) {
 						filled = true
 					}
+				}
+			}
+		}
+		for _, sv := range allStored[i] {
+			if call, ok := sv.(*ssa.Call); ok {
+				if n := staticCalleeName(call); n == "maps.Clone" || strings.HasSuffix(n, ".Clone") {
+					filled = true // a cloning call copies the entries itself
 				}
 			}
 		}
